@@ -83,7 +83,7 @@ def run(ctx):
                 bn = [x for x in A.walk(args[1]) if x.k == "call" and x.a[0].endswith("JournalBatchReader as std::iter::Iterator>::next")]
                 sn = [x for x in A.walk(seq) if x.k == "call" and x.a[0].endswith("JournalBatchReader as std::iter::Iterator>::next")]
                 if bn and sn:
-                    same = A.tkey(bn[0]) == A.tkey(sn[0])
+                    same = bn[0].site == sn[0].site and bn[0].a[0] == sn[0].a[0]
                 ctx.ob("R-C04.1", fn, "replay-%s-operands" % want, key_ok and seq_ok and val_ok and same,
                        "tree.%s(item.key%s, batch.seqno) with item and seqno of the same batch" % (want, ", item.value" if want == "insert" else "") if (key_ok and seq_ok and val_ok and same)
                        else "replay operands wrong: key=%s value=%s seqno=%s same-batch=%s" % (key_ok, val_ok, A.tstr(seq)[-60:], same), fn.loc(a))
